@@ -808,9 +808,15 @@ theorem mapOne_shape (k : Option Nat) (t j : Nat) (body : Coro Act) (i : Nat) (r
     simp [mapOne, run, runAwaits, Res.andThen, Res.finallyDo, hk]
   · right
     have e : run k (mapOne t j body) i =
-        (Res.finallyDo ⟨[.slot t j true, .fmmuOn t j] ++ (rb.exitOk (runAwaits k [.fmmuOff t j])).trace,
-          (rb.exitOk (runAwaits k [.fmmuOff t j])).out, (rb.exitOk (runAwaits k [.fmmuOff t j])).idx⟩
-          fun j2 => ⟨[.slot t j false], .normal, j2⟩) := by
+        ⟨.slot t j true :: (Res.finallyDo ⟨.fmmuOn t j :: (rb.exitOk (runAwaits k [.fmmuOff t j])).trace,
+            (rb.exitOk (runAwaits k [.fmmuOff t j])).out, (rb.exitOk (runAwaits k [.fmmuOff t j])).idx⟩
+            fun j2 => ⟨[.slot t j false], .normal, j2⟩).trace,
+          (Res.finallyDo ⟨.fmmuOn t j :: (rb.exitOk (runAwaits k [.fmmuOff t j])).trace,
+            (rb.exitOk (runAwaits k [.fmmuOff t j])).out, (rb.exitOk (runAwaits k [.fmmuOff t j])).idx⟩
+            fun j2 => ⟨[.slot t j false], .normal, j2⟩).out,
+          (Res.finallyDo ⟨.fmmuOn t j :: (rb.exitOk (runAwaits k [.fmmuOff t j])).trace,
+            (rb.exitOk (runAwaits k [.fmmuOff t j])).out, (rb.exitOk (runAwaits k [.fmmuOff t j])).idx⟩
+            fun j2 => ⟨[.slot t j false], .normal, j2⟩).idx⟩ := by
       simp [mapOne, run, runAwaits, Res.andThen, hk, hrb]
     rw [e]
     clear e hrb
@@ -825,5 +831,147 @@ theorem mapOne_shape (k : Option Nat) (t j : Nat) (body : Coro Act) (i : Nat) (r
         · rcases hn with hn | hn <;> simp [runAwaits, Res.finallyDo, Res.exitOk, hn, hc]
       · refine ⟨[], Or.inl rfl, ?_⟩
         simp [Res.finallyDo, Res.exitOk, hn, hp]
+
+/-! ### every OPERATIONAL request is followed by a SAFE-OPERATIONAL request -/
+
+/-- the terminal an event asks to go OPERATIONAL -/
+def opOf : Act → Option Nat
+  | .setState t v => if v = ms_OPERATIONAL then some t else none
+  | _ => none
+
+/-- every `set_state(OPERATIONAL)` of terminal t is followed, later in the trace, by a
+`set_state(SAFE_OPERATIONAL)` of t -/
+def opCovered : List Act → Bool
+  | [] => true
+  | a :: rest =>
+    (match opOf a with
+      | some t => rest.contains (.setState t ms_SAFE_OPERATIONAL)
+      | none => true) && opCovered rest
+
+theorem opOf_some {a : Act} {t : Nat} : opOf a = some t ↔ a = .setState t ms_OPERATIONAL := by
+  cases a <;> simp [opOf]
+  rename_i t' v
+  constructor
+  · rintro ⟨rfl, rfl⟩; exact ⟨rfl, rfl⟩
+  · rintro ⟨rfl, rfl⟩; exact ⟨rfl, rfl⟩
+
+/-- the Boolean check means what the property says -/
+theorem opCovered_spec (tr : List Act) (h : opCovered tr = true) (pre : List Act) (t : Nat) (post : List Act)
+    (e : tr = pre ++ .setState t ms_OPERATIONAL :: post) : .setState t ms_SAFE_OPERATIONAL ∈ post := by
+  induction pre generalizing tr with
+  | nil =>
+    subst e
+    simp only [List.nil_append, opCovered, Bool.and_eq_true] at h
+    have : opOf (.setState t ms_OPERATIONAL) = some t := opOf_some.2 rfl
+    rw [this] at h
+    simpa using h.1
+  | cons a pre ih =>
+    subst e
+    simp only [List.cons_append, opCovered, Bool.and_eq_true] at h
+    exact ih _ h.2 rfl
+
+theorem opCovered_append {a b : List Act} (hb : opCovered b = true)
+    (h : ∀ t, .setState t ms_OPERATIONAL ∈ a → .setState t ms_SAFE_OPERATIONAL ∈ b) :
+    opCovered (a ++ b) = true := by
+  induction a with
+  | nil => simpa using hb
+  | cons x a ih =>
+    simp only [List.cons_append, opCovered, Bool.and_eq_true]
+    refine ⟨?_, ih fun t ht => h t (by simp [ht])⟩
+    cases hx : opOf x with
+    | none => rfl
+    | some t =>
+      have := h t (by rw [opOf_some.1 hx]; simp)
+      simp [this]
+
+theorem opCovered_append_both {a b : List Act} (ha : opCovered a = true) (hb : opCovered b = true) :
+    opCovered (a ++ b) = true := by
+  induction a with
+  | nil => simpa using hb
+  | cons x a ih =>
+    simp only [List.cons_append, opCovered, Bool.and_eq_true] at ha ⊢
+    refine ⟨?_, ih ha.2⟩
+    cases hx : opOf x with
+    | none => rfl
+    | some t =>
+      have h1 := ha.1
+      rw [hx] at h1
+      simp only [List.contains_eq_mem, List.mem_append, decide_eq_true_eq] at h1 ⊢
+      exact Or.inl h1
+
+theorem opCovered_neutral_left {a b : List Act} (h : ∀ x ∈ a, opOf x = none) :
+    opCovered (a ++ b) = opCovered b := by
+  induction a with
+  | nil => rfl
+  | cons x a ih =>
+    simp only [List.cons_append, opCovered, h x (by simp), Bool.true_and]
+    exact ih fun y hy => h y (by simp [hy])
+
+theorem opCovered_noOp {l : List Act} (h : ∀ x ∈ l, opOf x = none) : opCovered l = true := by
+  have := opCovered_neutral_left (b := []) h
+  simpa [opCovered] using this
+
+theorem opCovered_neutral_right {a b : List Act} (ha : opCovered a = true) (h : ∀ x ∈ b, opOf x = none) :
+    opCovered (a ++ b) = true :=
+  opCovered_append_both ha (opCovered_noOp h)
+
+/-- `to_operational(SAFE_OPERATIONAL)` never requests OPERATIONAL, whatever state the terminal starts in
+(checked against the regenerated declaration order of `MachineState`) -/
+theorem toOp_noOp (t : Term) : ∀ x ∈ toOp t, opOf x = none := by
+  have key : ∀ s : Nat, ∀ x ∈ toOpSteps t.pos ms_SAFE_OPERATIONAL (Ebv.AlDriver.after s) s, opOf x = none := by
+    intro s
+    by_cases h1 : s = 1
+    · subst h1; simp [Ebv.AlDriver.after, msOrder, toOpSteps, opOf, ms_SAFE_OPERATIONAL, ms_OPERATIONAL]
+    by_cases h2 : s = 2
+    · subst h2; simp [Ebv.AlDriver.after, msOrder, toOpSteps, opOf, ms_SAFE_OPERATIONAL, ms_OPERATIONAL]
+    by_cases h4 : s = 4
+    · subst h4; simp [Ebv.AlDriver.after, msOrder, toOpSteps, opOf, ms_SAFE_OPERATIONAL, ms_OPERATIONAL]
+    by_cases h8 : s = 8
+    · subst h8; simp [Ebv.AlDriver.after, msOrder, toOpSteps, opOf, ms_SAFE_OPERATIONAL, ms_OPERATIONAL]
+    by_cases h3 : s = 3
+    · subst h3; simp [Ebv.AlDriver.after, msOrder, toOpSteps, opOf, ms_SAFE_OPERATIONAL, ms_OPERATIONAL]
+    have e : Ebv.AlDriver.after s = [] := by
+      simp [Ebv.AlDriver.after, msOrder, List.dropWhile, Ne.symm h1, Ne.symm h2, Ne.symm h4, Ne.symm h8, Ne.symm h3]
+    simp [e, toOpSteps]
+  intro x hx
+  simp only [toOp, List.mem_cons] at hx
+  rcases hx with rfl | hx
+  · rfl
+  · exact key _ x hx
+
+theorem safe_ne_op : ms_SAFE_OPERATIONAL ≠ ms_OPERATIONAL := by decide
+
+theorem andThen_loop_not_normal (r : Res α) (f : Nat → Res α) (n : Nat) :
+    (r.andThen (runLoop f n)).out ≠ .normal := by
+  unfold Res.andThen
+  by_cases h : r.out = .normal
+  · simp only [h, ↓reduceIte]; exact runLoop_not_normal f n _
+  · simp only [h, ↓reduceIte]; exact h
+
+/-- the `try … finally` of `SyncGroupBase.run`: if it is over, the cancellation came inside the `try`
+block and the `finally` block requested SAFE-OPERATIONAL for every read-write terminal -/
+theorem tryFin_trace (k : Option Nat) (ts : List Term) (n j : Nat)
+    (hp : (run k (.tryFinally (opBody ts n) (safeFin ts)) j).out ≠ .pending) :
+    (run k (.tryFinally (opBody ts n) (safeFin ts)) j).trace =
+      (run k (opBody ts n) j).trace ++ (rwOf ts).map fun p => .setState p ms_SAFE_OPERATIONAL := by
+  have g := good_run k (opBody ts n) (wf_opBody ts n) j
+  have hnn : (run k (opBody ts n) j).out ≠ .normal := by
+    simp only [opBody, run]; exact andThen_loop_not_normal _ _ n
+  have hnp : (run k (opBody ts n) j).out ≠ .pending := by
+    intro h; apply hp; simp [run, Res.finallyDo, h]
+  have hc : (run k (opBody ts n) j).out = .raised .cancelled := by
+    rcases g.tri with a | a | a
+    · exact absurd a hnn
+    · exact absurd a hnp
+    · exact a
+  obtain ⟨m, hk, _, hm⟩ := g.canc.1 hc
+  have hfin : run k (safeFin ts) (run k (opBody ts n) j).idx =
+      ⟨(rwOf ts).map fun p => .setState p ms_SAFE_OPERATIONAL, .normal,
+        (run k (opBody ts n) j).idx + ((rwOf ts).map fun p => Act.setState p ms_SAFE_OPERATIONAL).length⟩ := by
+    rw [past_eq hk _ hm]
+    simp only [safeFin, run]
+    rw [← List.map_map (g := fun a => [a]) (f := fun p => Act.setState p ms_SAFE_OPERATIONAL)] 
+    rw [interleave_singletons, runAwaits_none]
+  simp only [run, Res.finallyDo, hnp, ↓reduceIte, hfin]
 
 end Ebv.C24
